@@ -1511,6 +1511,22 @@ class Evaluator:
         # cast(T, x) is the identity
         if short == "cast" and len(e.args) == 2 and not e.keywords:
             return self._eval(st, e.args[1])
+        # len(x) for an object of a package class whose __len__ is `return len(self.<attr>)` is len(x.<attr>)
+        if fname == "len" and len(e.args) == 1 and not e.keywords and isinstance(e.args[0], (ast.Name, ast.Attribute)):
+            from .callgraph import classes_of as _classes_of
+
+            try:
+                cs_ = [c for c in _classes_of(self._tenv().type_of(e.args[0])) if c in self.program.classes]
+            except Exception:
+                cs_ = []
+            if len(cs_) == 1:
+                lm = self.program.lookup_method(cs_[0], "__len__")
+                if lm is not None and not self.program.overrides(cs_[0], "__len__"):
+                    body_ = [x for x in lm.node.body if not (isinstance(x, ast.Expr) and isinstance(x.value, ast.Constant))]
+                    if len(body_) == 1 and isinstance(body_[0], ast.Return) and isinstance(body_[0].value, ast.Call) and isinstance(body_[0].value.func, ast.Name) and body_[0].value.func.id == "len" \
+                            and len(body_[0].value.args) == 1 and isinstance(body_[0].value.args[0], ast.Attribute) and isinstance(body_[0].value.args[0].value, ast.Name) and body_[0].value.args[0].value.id == "self":
+                        inner = ast.Call(func=ast.Name(id="len", ctx=ast.Load()), args=[ast.Attribute(value=e.args[0], attr=body_[0].value.args[0].attr, ctx=ast.Load())], keywords=[])
+                        return self._eval_call(st, ast.fix_missing_locations(ast.copy_location(inner, e)))
         # receiver / function term
         recv_states: List[Tuple[_State, Term, Optional[Term]]] = []
         if isinstance(e.func, ast.Attribute):
